@@ -118,3 +118,32 @@ Definition gslb_by (subpick : list target -> Z -> option key) (bpick : list targ
   end.
 Definition gslb_pick := gslb_by sub_pick sticky.
 Definition gslb_spec := gslb_by (spec_pick 1 false) (spec_pick 100 true).
+
+(* ---------------------------------------------------------------- reload histories on one BalanceRR
+   Init(conf0), then sticky Balance calls interleaved with BalanceRR.Update(conf) and SetAvail.
+   Update keeps the backends whose AddrInfo is in the new conf (new weight, availability kept, old list order),
+   drops the others and appends the new ones (available); it clears the `sorted` flag, so the next sticky call
+   sorts again: the pick is always made on the sorted current list. *)
+Inductive hop :=
+| HPick (h : Z)
+| HUpdate (conf : list (key * Z))
+| HAvail (k : key) (a : bool).
+Fixpoint klookup (k : key) (conf : list (key * Z)) : option Z :=     (* confMapMake: the last entry of a key wins *)
+  match conf with
+  | [] => None
+  | (k', w) :: r => match klookup k r with Some w' => Some w' | None => if key_eqb k k' then Some w else None end
+  end.
+Definition h_init (conf : list (key * Z)) : list target := map (fun e => (fst e, snd e, true)) conf.
+Definition h_update (c : list target) (conf : list (key * Z)) : list target :=
+  flat_map (fun t => match klookup (t_key t) conf with Some w => [(t_key t, w, t_av t)] | None => [] end) c
+  ++ map (fun e => (fst e, snd e, true)) (filter (fun e => negb (existsb (key_eqb (fst e)) (map t_key c))) conf).
+Definition h_avail (c : list target) (k : key) (a : bool) : list target :=
+  map (fun t => if key_eqb (t_key t) k then (t_key t, t_w t, a) else t) c.
+(* observations: Some r for a pick, None for the other operations *)
+Fixpoint hrun_by (pick : list target -> Z -> option key) (c : list target) (ops : list hop) : list (option (option key)) :=
+  match ops with
+  | [] => []
+  | HPick h :: r => Some (pick c h) :: hrun_by pick c r
+  | HUpdate conf :: r => None :: hrun_by pick (h_update c conf) r
+  | HAvail k a :: r => None :: hrun_by pick (h_avail c k a) r
+  end.
